@@ -2,12 +2,20 @@
 """Writes /verif/MANIFEST.json from the table below (kept in one place so that it stays valid)."""
 import json, os
 V = os.path.dirname(os.path.dirname(os.path.abspath(__file__)))
+CORR = ' The tie to the code is a correspondence check on every run: the model is extracted to OCaml and run on the same generated data directories / requests as the binary rebuilt from /repo (hooks on); constant tables are regenerated from /repo/src and proved equal to the published ones.'
+NOTE = 'Theorems are about the hand-written Gallina mirror (Print Assumptions: closed under the global context); assurance is the weaker of theorem and correspondence. Not modelled: rusty-leveldb internals, kernel, rayon, clap, logging.'
+TECH = 'Coq proof (induction / invariants / round-trip laws) on an executable Gallina mirror + differential correspondence (extracted OCaml model vs binary built from /repo)'
 CLAIMED = {
- 'C02': dict(cat='proof', ref='6/C02',
-    text='Coq theorems (run_delivers_range, drive_inclusive, drive_ext, get_block_range_same, slice lemmas) on the executable model of index clamp/trim + driver loop: delivered heights are exactly s..min(e,T), ascending, once, for every index and range; the model is tied to the code by a bounded-exhaustive correspondence (all T<=4/9, all accepted (s,e), 5 callbacks) on the binary rebuilt from /repo.',
-    note='Theorems are about the hand-written Gallina mirror; the correspondence check (extracted model vs real binary) is the tie. s > tip is outside the property quantifier.',
-    tech='Coq proof by induction over the driver loop + differential correspondence (extracted OCaml model vs binary)'),
+ 'C01': dict(cat='proof', ref='6/C01', text='Round-trip theorems for every well-formed tx/block (legacy, segwit, all four CompactSize widths per count/length, AuxPoW), txid = H(witness-stripped bytes), block hash = H(first 80 bytes), one CSV row per block/tx/input/output in chain order, totals = row counts, rows split back into their fields, hex/decimal renderers invertible.' + CORR),
+ 'C02': dict(cat='proof', ref='6/C02', text='Delivered heights are exactly s..min(e,T), ascending, once, for every index and range (run_delivers_range, drive_inclusive), nothing outside the range is read (drive_ext), a range run sees the whole-chain run\'s blocks (trimming invisible), per-block outputs of a range are slices; bounded-exhaustive correspondence over all T<=4/9, all accepted (s,e), 5 callbacks.' + CORR),
+ 'C03': dict(cat='proof', ref='6/C03', text='Core VarInt decode(encode n) = n on all of u64 with both panic branches modelled, index record decode for every field width and status, blk file name parsing for every padding, non-block keys ignored, fetch_block returns the block whose bytes lie at (file, offset) in the plaintext view whatever surrounds it, hence layout independence of the whole run.' + CORR),
+ 'C04': dict(cat='proof', ref='6/C04', text='The height map holds per height the last admitted record in key order (load_index_last); header-only records are never admitted and never displace anything (all 256 status bytes swept); C04_partial: whenever the last admitted record at every height is the active one the delivered chain is the active chain; C04_refuted: witness that a stale sibling with data sorting later is delivered (known finding F-C04, recorded not repaired).' + CORR),
+ 'C11': dict(cat='proof', ref='6/C11', text='XorReader over seek_bufread::BufReader refines a plain cursor over the plaintext for every key, buffer size, seek/read sequence and short-read pattern (xor_reader_refines); at the level of the whole run an obfuscated directory yields exactly the run of the plaintext directory (run_case_obfuscated).' + CORR + ' The reader mirror itself is also tied in-process (xor-reader hook, arbitrary buffer sizes and short reads).'),
+ 'C12': dict(cat='proof', ref='6/C12', text='A block with an AuxPoW section (legacy or segwit parent coinbase, two branches of any length) parses to the same header, transaction list and hash as without (read_block_ser, auxpow_irrelevant); a section is decoded iff the coin has a threshold and version >= threshold (equality included); published thresholds 0x10101/0x620102 and no threshold for the six other coins.' + CORR),
+ 'C17': dict(cat='proof', ref='6/C17', text='After delivering s..h every open file still stores a block of a later height (open_invariant/open_span, any layout, any start), no file is listed twice, files with disjoint spans are open one at a time; the model\'s open-set trace is the iterated visit of those theorems. Correspondence: strace of open/close on blk files per delivered height against the bound and the model, plus runs under RLIMIT_NOFILE.' + CORR,
+             note='Assumes dropping the reader closes its descriptor (observed through strace, not proved).'),
 }
+for k, v in CLAIMED.items(): v.setdefault('note', NOTE); v.setdefault('tech', TECH)
 NOT_YET = {}
 props = [json.loads(l) for l in open(os.path.join(V, 'properties.jsonl'))]
 checks = []; na = []
